@@ -520,8 +520,14 @@ def oracle_join(desc, run, run2):
     it = Intern()
     _, view = observe(res, it)
     if view is None:
-        out.append(("C12:atoms:unidentifiable", "a product atom does not carry the attributes of any source atom (attrib lost), or the "
-                    "coordinate array does not have one finite row per atom"))
+        Xr = np.asarray(res.coords, dtype=float)
+        if Xr.shape != (len(res.atoms), 3):
+            out.append(("C12:geometry:rows-not-aligned", f"the product has {len(res.atoms)} atoms but a coordinate array of shape {Xr.shape}"))
+        elif not np.isfinite(Xr).all():
+            out.append(("C12:geometry:not-finite", "the product has non-finite coordinates (the fragments have distinct atom positions)"))
+        else:
+            out.append(("C12:atoms:unidentifiable", "a product atom does not carry the attributes of any source atom (attrib lost), or "
+                        "charge/multiplicity are not integers"))
         return out
     # new objects, owned by the product
     src_ids = {id(a) for a in run["A"].atoms} | {id(a) for a in run["B"].atoms} | {id(b) for b in run["A"].bonds} | {id(b) for b in run["B"].bonds}
